@@ -67,6 +67,8 @@ func init() {
 			p.Thorough = append(p.Thorough, HRun{Entry: "HarnessC13DupFold", Args: []int64{int64(L)}, Bound: "two symbolic keys of length L in every user-keyed mapping", Require: []string{"dup-reported", "dup-silent"}})
 		}
 		p.Thorough = append(p.Thorough, HRun{Entry: "HarnessC13Missing", Bound: "each mandatory key removed from each mapping that has it", Require: []string{"baseline", "removed"}})
+		p.Quick = append(p.Quick, HRun{Entry: "HarnessC13Siblings", Bound: "a wrong cron value next to a foreign key in a schedule item; a call job with two normal-job keys; a normal job with `with` and `secrets`: every diagnostic survives", Require: []string{"schedule", "call-job", "normal-job"}})
+		p.Thorough = append(p.Thorough, HRun{Entry: "HarnessC13Siblings", Bound: "sibling diagnostics survive", Require: []string{"schedule", "call-job", "normal-job"}})
 		props["C13"] = p
 	}
 	// ---- C03 ----
@@ -88,6 +90,8 @@ func init() {
 		for sh := 0; sh < 4; sh++ {
 			p.Thorough = append(p.Thorough, HRun{Entry: "HarnessC03Key", Args: []int64{19, int64(sh), 1}, Bound: "pairs of symbolic sibling keys of length 1..19 x value shape", Require: []string{"accepted-position"}})
 		}
+		p.Quick = append(p.Quick, HRun{Entry: "HarnessC03Tagged", Bound: "the malformed placeholder with an explicit !!bool / !!int / !!float / !!str tag at every scalar position of the full skeleton", Require: []string{"site"}})
+		p.Thorough = append(p.Thorough, HRun{Entry: "HarnessC03Tagged", Bound: "explicitly tagged placeholders at every scalar position", Require: []string{"site"}})
 		props["C03"] = p
 	}
 
@@ -151,6 +155,8 @@ func init() {
 			p.Quick = append(p.Quick, HRun{Entry: "HarnessC01Cron", Args: []int64{a[0], a[1]}, Bound: "schedule check on a cron specification of a concrete prefix (none, TZ=, CRON_TZ=, @, '@every ', 'TZ=U ') + arbitrary bytes; robfig/cron's parser interpreted from source", Require: []string{"checked"}})
 			p.Thorough = append(p.Thorough, HRun{Entry: "HarnessC01Cron", Args: []int64{a[0] + 1, a[1]}, Bound: "... one more arbitrary byte", Require: []string{"checked"}})
 		}
+		p.Quick = append(p.Quick, HRun{Entry: "HarnessC01NoProject", Bound: "LintFiles on two files outside any repository, one with a local reusable workflow call in 4 spellings", Require: []string{"returned"}})
+		p.Thorough = append(p.Thorough, HRun{Entry: "HarnessC01NoProject", Bound: "files outside any repository", Require: []string{"returned"}})
 		props["C01"] = p
 	}
 	// ---- C04 ----
@@ -178,6 +184,10 @@ func init() {
 		for L := 0; L <= 4; L++ {
 			p.Thorough = append(p.Thorough, HRun{Entry: "HarnessC04Lex", Args: []int64{int64(L)}, Bound: fmt.Sprintf(lexB, L, L)})
 		}
+		for _, L := range []int64{1, 2, 3} {
+			p.Quick = append(p.Quick, HRun{Entry: "HarnessC04If", Args: []int64{L}, Bound: "`if:` condition without ${{ }}: `true` + L arbitrary ASCII bytes without quotes is accepted only if it contains no `}`", Require: []string{"checked"}})
+		}
+		p.Thorough = append(p.Thorough, HRun{Entry: "HarnessC04If", Args: []int64{4}, Bound: "bare if condition with 4 arbitrary bytes", Require: []string{"checked"}})
 		props["C04"] = p
 	}
 
@@ -248,6 +258,8 @@ func init() {
 			{Entry: "HarnessC16TypeNames", Args: []int64{2}, Bound: "... 2 arbitrary bytes", Require: []string{"diagnostic", "type-printed"}},
 			{Entry: "HarnessC16Matcher", Args: []int64{2}, Bound: "header of a diagnostic echoing a 2-byte printable key parsed back by the shipped problem-matcher pattern (executed symbolically: leftmost-first backtracking over the compiled program)", Require: []string{"diagnostic"}},
 			{Entry: "HarnessC16Matcher", Args: []int64{3}, Bound: "... 3-byte key", Require: []string{"diagnostic"}},
+			{Entry: "HarnessC16CallPath", Args: []int64{2}, Bound: "uses: ./ + 2 arbitrary bytes + .yml at job level inside a project; the file-system error echoes the path", Require: []string{"diagnostic"}},
+			{Entry: "HarnessC16CallPath", Args: []int64{3}, Bound: "... 3 arbitrary bytes", Require: []string{"diagnostic"}},
 			{Entry: "HarnessC16Docker", Args: []int64{3}, Bound: "uses: docker:// + 3 arbitrary bytes (url.Parse on symbolic text is a free-error contract stub)", Require: []string{"linted"}},
 			{Entry: "HarnessC16Docker", Args: []int64{4}, Bound: "... 4 arbitrary bytes", Require: []string{"linted"}},
 			{Entry: "HarnessC16Glob", Args: []int64{2, 0}, Bound: "filter-pattern validator messages for every 2-byte pattern", Require: []string{"diagnostic"}},
@@ -311,6 +323,7 @@ func init() {
 			{Entry: "HarnessC15Filter", Args: []int64{4, 2, 0}, Bound: "4 diagnostics x 2 CLI patterns, no config", Require: []string{"kept", "dropped"}},
 			{Entry: "HarnessC15Cwd", Bound: "working directory in {root, parent, nested, unrelated} x spelling in {absolute, relative, ./relative}", Require: []string{"linted"}},
 			{Entry: "HarnessC15MultiRepo", Bound: "two repositories with their own `paths` ignore configuration linted in one run, both argument orders: each file filtered by its own repository's configuration", Require: []string{"linted"}},
+			{Entry: "HarnessC15IgnoreItems", Bound: "an `ignore` item of actionlint.yaml in 7 YAML forms (string, quoted, alias, empty, sequence, mapping, null) decoded by the repository's UnmarshalYAML", Require: []string{"parsed"}},
 			{Entry: "HarnessC15Check", Bound: "LintFile end to end on 3 files (rule diagnostic, text that is not YAML, workflow syntax error) x 3 patterns x given by -ignore or by the paths configuration", Require: []string{"linted", "pattern-matches"}},
 		}
 		p.Thorough = append(append([]HRun{}, p.Quick...),
@@ -330,7 +343,7 @@ func init() {
 		p.Quick = []HRun{
 			{Entry: "HarnessC08Case", Bound: "50 name occurrences (definitions and uses of inputs, secrets, outputs, job/step ids, matrix keys, env keys, contexts, properties, ['literal'] indices, functions, action inputs, fromJSON accessors) x all 2^n letter-case spellings each", Require: []string{"variant"}},
 			{Entry: "HarnessC08Keywords", Bound: "true/false/null in every spelling with an upper-case letter; string literal contents", Require: []string{"keyword-variant"}},
-			{Entry: "HarnessC08Diagnosed", Bound: "a workflow with name-dependent diagnostics (typed inputs / secret of a local reusable workflow call, needs outputs, action inputs): 5 call-site names with symbolic letter case keep every diagnostic in place", Require: []string{"variant"}},
+			{Entry: "HarnessC08Diagnosed", Bound: "a workflow with name-dependent diagnostics (typed inputs / secret of a local reusable workflow call, needs outputs, action inputs): 6 names (call-site keys, a job id that needs itself) with symbolic letter case keep every diagnostic in place", Require: []string{"variant"}},
 		}
 		p.Thorough = p.Quick
 		props["C08"] = p
@@ -363,13 +376,14 @@ func init() {
 	{
 		p := &Prop{ID: "C02", Outside: []string{
 			"goroutine scheduling, GOMAXPROCS, repeated process executions: the scheduler is not SSA (C20 covers the result-collection protocol; C10 the absence of shared writes)",
-			"workflows other than the nine of the corpus (each has several diagnostics per position / several candidates); maps with more than 3 entries are iterated in 3 transformed orders (reversed, rotated by 1, rotated by n/2) instead of all n!",
+			"workflows other than the ten of the corpus (each has several diagnostics per position / several candidates); maps with more than 3 entries are iterated in 3 transformed orders (reversed, rotated by 1, rotated by n/2) instead of all n!",
 			"native confirmation of an order dependence uses Go's own randomised iteration (60 repetitions)",
 		}}
 		p.Quick = []HRun{
 			{Entry: "HarnessC02Order", Bound: "Pos.IsBefore and ByErrorPosition.Less on every pair / triple of positions with full 64-bit line and column values: strict total order, mutually consistent", Require: []string{"compared"}},
-			{Entry: "HarnessC02MapOrder", Bound: "9 workflows x every function that ranges over a map of >= 2 entries (discovered by a recording run) x every iteration order of that function's maps", Require: []string{"compared", "several-diagnostics"}},
+			{Entry: "HarnessC02MapOrder", Bound: "10 workflows x every function that ranges over a map of >= 2 entries (discovered by a recording run) x every iteration order of that function's maps", Require: []string{"compared", "several-diagnostics"}},
 			{Entry: "HarnessC14Routes", Bound: "which file is linted first decides whether a callee's interface is decoded from its file or written from its syntax tree: both routes give the same interface for every declaration of the family (945)", Require: []string{"compared"}},
+			{Entry: "HarnessC02JobOrder", Bound: "four jobs sharing a missing local reusable workflow and a broken local action (caches report to the first caller only), every order of the jobs map", Require: []string{"compared"}},
 			{Entry: "HarnessC02WorkflowCall", Bound: "local reusable workflow with 3 required inputs and 3 required secrets, none supplied: all 36 orders", Require: []string{"compared"}},
 		}
 		p.Thorough = p.Quick
@@ -387,6 +401,7 @@ func init() {
 			{Entry: "HarnessC11Chains", Args: []int64{2}, Bound: "github + up to 2 segments (15 names as .name or ['name'], [0], .*) with symbolic letter case on every name, x 15 embeddings (5 sanitising)", Require: []string{"untrusted", "trusted-or-sanitised"}},
 			{Entry: "HarnessC11Two", Args: []int64{2}, Bound: "a generic chain of up to 2 segments (names event, commits, foo; [0]; .*) before or after a documented untrusted path in every spelling, in 4 two-operand shapes", Require: []string{"compared"}},
 			{Entry: "HarnessC11Routing", Bound: "the untrusted expression at every scalar position of the full skeleton and in actions/github-script inputs", Require: []string{"script-position", "other-position", "github-script"}},
+			{Entry: "HarnessC11StarLiteral", Bound: "every documented path with array steps spelled ['*']: an ordinary property access, nothing reported", Require: []string{"compared"}},
 			{Entry: "HarnessC11Split", Bound: "every documented untrusted path in every spelling cut at every position, the rest applied to a call result / parenthesised literal in 5 shapes", Require: []string{"compared"}},
 		}
 		p.Thorough = []HRun{
@@ -426,6 +441,8 @@ func init() {
 			HRun{Entry: "HarnessC07Glob", Args: []int64{3, 1}, Bound: "all ref patterns of length 3"},
 			HRun{Entry: "HarnessC07Glob", Args: []int64{3, 0}, Bound: "all path patterns of length 3"},
 		)
+		p.Quick = append(p.Quick, HRun{Entry: "HarnessC07If", Bound: "5 malformed `if:` conditions written without ${{ }}, plain or quoted, at a 64-bit symbolic position", Require: []string{"checked"}})
+		p.Thorough = append(p.Thorough, HRun{Entry: "HarnessC07If", Bound: "bare if conditions at symbolic positions", Require: []string{"checked"}})
 		props["C07"] = p
 	}
 
@@ -506,19 +523,21 @@ func init() {
 			HRun{Entry: "HarnessC20Pyflakes", Args: []int64{2}, Bound: "2 records with symbolic text, line terminator in {LF, CRLF, none}, optional junk lines", Require: []string{"callback", "unterminated"}},
 			HRun{Entry: "HarnessC20Shell", Bound: "shell at step / job default / workflow default in 7 spellings each x Linux / Windows runner (686 combinations)", Require: []string{"linted"}},
 			HRun{Entry: "HarnessC20TwoJobs", Bound: "two jobs x runner {Linux, Windows} x job default shell {none, bash, pwsh} x both visiting orders: per-job effective shell", Require: []string{"linted"}},
-			HRun{Entry: "HarnessC20Schedule", Args: []int64{2, 1, 1, 0}, Bound: "LintFiles on 2 files x 1 run step, 1 CPU: every interleaving of the 5 goroutines (29 sync events, 13 atomic blocks after Lipton reduction), partial-order encoding: process bound, all collected before return, no deadlock", Require: []string{"linted", "complete-schedule-exists"}},
-			HRun{Entry: "HarnessC20Schedule", Args: []int64{2, 1, 1, 1}, Bound: "the same instance in the step-indexed encoding (cross-encoding diff)", Require: []string{"linted", "complete-schedule-exists"}},
-			HRun{Entry: "HarnessC20Schedule", Args: []int64{2, 2, 1, 0}, Bound: "2 files x 2 steps, 1 CPU: 7 goroutines, 45 events", Require: []string{"linted", "complete-schedule-exists"}},
-			HRun{Entry: "HarnessC20Schedule", Args: []int64{3, 2, 1, 0}, Bound: "3 files x 2 steps, 1 CPU: 10 goroutines, 66 events", Require: []string{"linted", "complete-schedule-exists"}},
-			HRun{Entry: "HarnessC20Schedule", Args: []int64{3, 3, 2, 0}, Bound: "3 files x 3 steps, 2 CPUs: 13 goroutines, 90 events", Require: []string{"linted", "complete-schedule-exists"}},
+			HRun{Entry: "HarnessC20Schedule", Args: []int64{2, 1, 1, 0, 0}, Bound: "LintFiles on 2 files x 1 run step, 1 CPU: every interleaving of the 5 goroutines (29 sync events, 13 atomic blocks after Lipton reduction), partial-order encoding: process bound, all collected before return, no deadlock", Require: []string{"linted", "complete-schedule-exists"}},
+			HRun{Entry: "HarnessC20Schedule", Args: []int64{2, 1, 1, 1, 0}, Bound: "the same instance in the step-indexed encoding (cross-encoding diff)", Require: []string{"linted", "complete-schedule-exists"}},
+			HRun{Entry: "HarnessC20Schedule", Args: []int64{2, 2, 1, 0, 1}, Bound: "2 files x 2 steps, 1 CPU, every shellcheck run answers with garbage: LintFiles returns the fatal error only after every tool goroutine finished", Require: []string{"linted", "complete-schedule-exists"}},
+			HRun{Entry: "HarnessC20Schedule", Args: []int64{3, 2, 2, 0, 1}, Bound: "3 files x 2 steps, 2 CPUs, failing shellcheck", Require: []string{"linted", "complete-schedule-exists"}},
+			HRun{Entry: "HarnessC20Schedule", Args: []int64{2, 2, 1, 0, 0}, Bound: "2 files x 2 steps, 1 CPU: 7 goroutines, 45 events", Require: []string{"linted", "complete-schedule-exists"}},
+			HRun{Entry: "HarnessC20Schedule", Args: []int64{3, 2, 1, 0, 0}, Bound: "3 files x 2 steps, 1 CPU: 10 goroutines, 66 events", Require: []string{"linted", "complete-schedule-exists"}},
+			HRun{Entry: "HarnessC20Schedule", Args: []int64{3, 3, 2, 0, 0}, Bound: "3 files x 3 steps, 2 CPUs: 13 goroutines, 90 events", Require: []string{"linted", "complete-schedule-exists"}},
 		)
 		p.Thorough = append(append([]HRun{}, p.Quick...),
 			HRun{Entry: "HarnessC20Sanitize", Args: []int64{16}, Bound: "all scripts of length 16"},
 			HRun{Entry: "HarnessC20Sanitize", Args: []int64{20}, Bound: "all scripts of length 20"},
 			HRun{Entry: "HarnessC20Pyflakes", Args: []int64{3}, Bound: "3 records", Require: []string{"callback", "unterminated"}},
-			HRun{Entry: "HarnessC20Schedule", Args: []int64{4, 4, 2, 0}, Bound: "4 files x 4 steps, 2 CPUs: 21 goroutines, 151 events (59 blocks)", Require: []string{"linted", "complete-schedule-exists"}},
-			HRun{Entry: "HarnessC20Schedule", Args: []int64{4, 4, 3, 0}, Bound: "4 files x 4 steps, 3 CPUs", Require: []string{"linted", "complete-schedule-exists"}},
-			HRun{Entry: "HarnessC20Schedule", Args: []int64{2, 2, 1, 1}, Bound: "2 files x 2 steps, 1 CPU in the step-indexed encoding", Require: []string{"linted", "complete-schedule-exists"}},
+			HRun{Entry: "HarnessC20Schedule", Args: []int64{4, 4, 2, 0, 0}, Bound: "4 files x 4 steps, 2 CPUs: 21 goroutines, 151 events (59 blocks)", Require: []string{"linted", "complete-schedule-exists"}},
+			HRun{Entry: "HarnessC20Schedule", Args: []int64{4, 4, 3, 0, 0}, Bound: "4 files x 4 steps, 3 CPUs", Require: []string{"linted", "complete-schedule-exists"}},
+			HRun{Entry: "HarnessC20Schedule", Args: []int64{2, 2, 1, 1, 0}, Bound: "2 files x 2 steps, 1 CPU in the step-indexed encoding", Require: []string{"linted", "complete-schedule-exists"}},
 		)
 		props["C20"] = p
 	}
